@@ -149,6 +149,7 @@ impl SocksListener {
             .set_callback(Callback {
                 version: request.version,
                 listen_addr: None,
+                replied: Default::default(),
             })
             .set_client_stream(socket);
 
@@ -200,6 +201,7 @@ impl SocksListener {
                     .set_callback(Callback {
                         version: request.version,
                         listen_addr: Some(listen_addr),
+                        replied: Default::default(),
                     })
                     .set_idle_timeout(state.timeouts.udp);
                 ctx.enqueue(&queue).await?;
@@ -216,11 +218,16 @@ impl SocksListener {
 struct Callback {
     version: u8,
     listen_addr: Option<SocketAddr>,
+    // set once a reply has been sent: a UDP association keeps its control stream, so an
+    // error after the success reply must not send a second (failure) reply on it
+    replied: std::sync::atomic::AtomicBool,
 }
 
 #[async_trait]
 impl ContextCallback for Callback {
     async fn on_connect(&self, ctx: &mut Context) {
+        self.replied
+            .store(true, std::sync::atomic::Ordering::Relaxed);
         let version = self.version;
         let cmd = SOCKS_REPLY_OK;
         let target = self.listen_addr.map_or_else(|| ctx.target(), |x| x.into());
@@ -235,6 +242,9 @@ impl ContextCallback for Callback {
         }
     }
     async fn on_error(&self, ctx: &mut Context, _error: Error) {
+        if self.replied.swap(true, std::sync::atomic::Ordering::Relaxed) {
+            return;
+        }
         let version = self.version;
         let cmd = SOCKS_REPLY_GENERAL_FAILURE;
         let target = "0.0.0.0:0".parse().unwrap();
